@@ -52,9 +52,8 @@ func (fr *Frame) recordStreamRead(fn *ssa.Function, ct *Contract, args []Val, mk
 	for i := 0; i < st.NumFields(); i++ {
 		if st.Field(i).Name() == "err" {
 			k := fieldKey(pt.Elem(), i)
-			srt := SArray(SRef, SIface)
-			preErr := Select(pre.get(k, srt), recv)
-			postErr := Select(fr.cur.get(k, srt), recv)
+			preErr := objRead(pre, k, SIface, recv)
+			postErr := objRead(fr.cur, k, SIface, recv)
 			ev := readEvent{kind: "bin", val: mk.results[0].T, err: postErr, preErr: preErr, reach: fr.abs()}
 			if kind == "uvarint" {
 				ev.kind = "uvarint"
@@ -109,10 +108,7 @@ func (fr *Frame) ioInvoke(cc *ssa.CallCommon, recv Val, args []Val, pos token.Po
 }
 
 func (fr *Frame) havocElems(sl *Term, et types.Type) {
-	k := elemKey(et)
-	es := sortOf(et)
-	heap := fr.cur.get(k, SArray(SRef, SArray(SInt, es)))
-	fr.cur.set(k, Store(heap, DataField_(sl, 0), FreshVar("iobytes", SArray(SInt, es))))
+	elemHavocInners(fr.cur, elemKey(et), sortOf(et), DataField_(sl, 0), "iobytes")
 }
 
 func (fr *Frame) ioModel(name string, fn *ssa.Function, args []Val, pos token.Pos, resType types.Type) (Val, bool) {
